@@ -15,10 +15,10 @@ import json
 
 import common
 from common import Check, standard_proof_step, TRUSTED_COMMON
-from c10 import IMPORTS as IMPORTS0, coq_codes, corr_term, harness_problems, job_defs, job_replay_info, make_jobs, run_jobs
+from c10 import IMPORTS as IMPORTS0, coq_codes, corr_term, guarded, harness_problems, job_defs, job_replay_info, make_jobs, run_jobs
 
 IMPORTS = IMPORTS0 + "\nFrom XV Require Import Proofs.ParserDoc."
-EXTRAS_C15 = ["wrappers", "required", "wildtail", "anytype", "noinitwild", "fixed", "textattr", "union"]
+EXTRAS_C15 = ["wildknown", "wrappers", "required", "wildtail", "anytype", "noinitwild", "fixed", "textattr", "union"]
 DOCUMENTED = ("ParserError", "ConverterError", "XmlContextError", "XmlHandlerError")
 
 SITE_CLASS = {
@@ -34,10 +34,10 @@ def run(ck: Check):
     ck.level = "proof"
     obligations, discharged, axioms = standard_proof_step(ck, extra_targets=["Model/ParserCorr.vo", "Proofs/ParserWitness.vo", "Proofs/ParserDoc.vo"])
     q = ck.quick
-    budget = {"truncations": 30 if q else 400, "flips": 24 if q else 150, "structural": 26 if q else 120, "prefix": 3 if q else 8,
-              "random": 8 if q else 30, "event_faults": 12 if q else 60, "json_truncations": 12 if q else 60,
+    budget = {"truncations": 24 if q else 400, "flips": 20 if q else 150, "structural": 22 if q else 120, "prefix": 3 if q else 8,
+              "random": 6 if q else 30, "event_faults": 10 if q else 60, "json_truncations": 10 if q else 60,
               "json_flips": 8 if q else 40, "json_structural": 16 if q else 80, "json_random": 5 if q else 20}
-    jobs = make_jobs(ck, "c15", EXTRAS_C15, ck.n(13, 150), budget)
+    jobs = make_jobs(ck, "c15", EXTRAS_C15, ck.n(8, 150), budget)
     if getattr(ck, "replay_file", None):
         rp = json.load(open(ck.replay_file))["replay"]
         if "job" in rp:
@@ -95,57 +95,67 @@ def run(ck: Check):
     # ---------------------------------------------------------------- documents: both handlers
     stats = {"docs": 0, "illformed": 0, "native_rejects_illformed": 0, "wf": 0, "timeouts": 0}
     outcome_hist = {}
+
+    def classify_doc(j, d):
+        stats["docs"] += 1
+        ill = not d["wf_lxml"]
+        stats["illformed" if ill else "wf"] += 1
+        for h in ("native", "lxml"):
+            o = d[h]
+            rp = {"job": job_replay_info(j), "case": {"doc_b64": d["doc_b64"], "cfg": d["cfg"], "handler": h, "what": d["what"]}}
+            k = (h, d["fault"], o["kind"] if o["kind"] != "err" else o["exc"])
+            outcome_hist[k] = outcome_hist.get(k, 0) + 1
+            if o["kind"] == "timeout":
+                stats["timeouts"] += 1
+                ck.failure("timeout", f"{h} handler did not return within 5 s on a faulted document ({d['what']})", rp)
+            elif o["kind"] == "err" and o["exc"] not in DOCUMENTED:
+                if (j["id"], d["doc_b64"], h) in explained:
+                    continue                       # classified above through the model
+                if h == "native" and o["exc"] == "LookupError" and (o["msg"] or "").startswith("unknown encoding"):
+                    ck.failure("native-unknown-encoding-LookupError",
+                               f"native handler: {o['msg']} ({d['what']})", rp)
+                else:
+                    ck.failure(f"undocumented-{h}-{o['exc']}", f"{h} handler raised {o['exc']}: {o['msg']} ({d['what']}), not explained by the model", rp)
+        if ill:
+            nat = d["native"]
+            rp = {"job": job_replay_info(j), "case": {"doc_b64": d["doc_b64"], "cfg": d["cfg"], "handler": "native", "what": d["what"]}}
+            if nat["kind"] == "err":
+                stats["native_rejects_illformed"] += 1
+            elif nat["kind"] == "ok":
+                info = d.get("wf_info") or {}
+                if info.get("only_version"):
+                    ck.failure("native-accepts-illformed-xmldecl-version",
+                               f"pure-Python handler accepts a document whose only defect is the XML declaration's version ({d['what']}; libxml2: {info.get('errors', [])[:2]})", rp)
+                else:
+                    ck.failure("native-accepts-illformed", f"pure-Python handler accepts an ill-formed document ({d['what']}; libxml2: {info.get('errors', [])[:3]})", rp)
+
     for j in res["jobs"]:
         for d in j.get("docs", []):
-            stats["docs"] += 1
-            ill = not d["wf_lxml"]
-            stats["illformed" if ill else "wf"] += 1
-            for h in ("native", "lxml"):
-                o = d[h]
-                rp = {"job": job_replay_info(j), "case": {"doc_b64": d["doc_b64"], "cfg": d["cfg"], "handler": h, "what": d["what"]}}
-                k = (h, d["fault"], o["kind"] if o["kind"] != "err" else o["exc"])
-                outcome_hist[k] = outcome_hist.get(k, 0) + 1
-                if o["kind"] == "timeout":
-                    stats["timeouts"] += 1
-                    ck.failure("timeout", f"{h} handler did not return within 5 s on a faulted document ({d['what']})", rp)
-                elif o["kind"] == "err" and o["exc"] not in DOCUMENTED:
-                    if (j["id"], d["doc_b64"], h) in explained:
-                        continue                       # classified above through the model
-                    if h == "native" and o["exc"] == "LookupError" and (o["msg"] or "").startswith("unknown encoding"):
-                        ck.failure("native-unknown-encoding-LookupError",
-                                   f"native handler: {o['msg']} ({d['what']})", rp)
-                    else:
-                        ck.failure(f"undocumented-{h}-{o['exc']}", f"{h} handler raised {o['exc']}: {o['msg']} ({d['what']}), not explained by the model", rp)
-            if ill:
-                nat = d["native"]
-                if nat["kind"] == "err":
-                    stats["native_rejects_illformed"] += 1
-                elif nat["kind"] == "ok":
-                    if d["wf_info"].get("only_version"):
-                        ck.failure("native-accepts-illformed-xmldecl-version",
-                                   f"pure-Python handler accepts a document whose only defect is the XML declaration's version ({d['what']}; libxml2: {d['wf_info']['errors'][:2]})", rp)
-                    else:
-                        ck.failure("native-accepts-illformed", f"pure-Python handler accepts an ill-formed document ({d['what']}; libxml2: {d['wf_info']['errors'][:3]})", rp)
+            guarded(ck, f"document classification ({d.get('what')})", lambda: classify_doc(j, d))
 
     # ---------------------------------------------------------------- JSON parser
     jstats = {"docs": 0, "illformed": 0, "wf": 0}
+
+    def classify_json(j, d):
+        if "skipped" in d:
+            return
+        jstats["docs"] += 1
+        jstats["wf" if d["wf"] else "illformed"] += 1
+        o = d["res"]
+        rp = {"job": job_replay_info(j), "case": {"json_b64": d["doc_b64"], "what": d["what"]}}
+        k = ("json", d["fault"], o["kind"] if o["kind"] != "err" else o["exc"])
+        outcome_hist[k] = outcome_hist.get(k, 0) + 1
+        if o["kind"] == "timeout":
+            ck.failure("timeout", f"JsonParser did not return within 5 s ({d['what']})", rp)
+        elif o["kind"] == "ok" and not d["wf"]:
+            ck.failure("json-accepts-illformed", f"JsonParser accepts ill-formed JSON ({d['what']})", rp)
+        elif o["kind"] == "err" and o["exc"] not in DOCUMENTED:
+            cls = ("json-misfit-" if d["wf"] else "json-illformed-") + str(o["exc"])
+            ck.failure(cls, f"JsonParser raised {o['exc']} at {d.get('where')}: {o['msg']} ({d['what']})", rp)
+
     for j in res["jobs"]:
         for d in j.get("json_docs", []):
-            if "skipped" in d:
-                continue
-            jstats["docs"] += 1
-            jstats["wf" if d["wf"] else "illformed"] += 1
-            o = d["res"]
-            rp = {"job": job_replay_info(j), "case": {"json_b64": d["doc_b64"], "what": d["what"]}}
-            k = ("json", d["fault"], o["kind"] if o["kind"] != "err" else o["exc"])
-            outcome_hist[k] = outcome_hist.get(k, 0) + 1
-            if o["kind"] == "timeout":
-                ck.failure("timeout", f"JsonParser did not return within 5 s ({d['what']})", rp)
-            elif o["kind"] == "ok" and not d["wf"]:
-                ck.failure("json-accepts-illformed", f"JsonParser accepts ill-formed JSON ({d['what']})", rp)
-            elif o["kind"] == "err" and o["exc"] not in DOCUMENTED:
-                cls = ("json-misfit-" if d["wf"] else "json-illformed-") + o["exc"]
-                ck.failure(cls, f"JsonParser raised {o['exc']} at {d.get('where')}: {o['msg']} ({d['what']})", rp)
+            guarded(ck, f"json classification ({d.get('what')})", lambda: classify_json(j, d))
 
     for jid in sorted(not_wf):
         j = res["jobs"][jid]
